@@ -31,7 +31,7 @@ pub struct Gen {
 }
 
 const EXIST: &[&str] = &["f1", "f2", "f3", "d1", "d2", "d3", "g", "ln", "lout_abs", "lout_rel", "lout_dir", "ldang", "hl", "fifo", "nul"];
-const FILES: &[&str] = &["f1", "f2", "f3", "g", "hl", "f1", "f3"];
+const FILES: &[&str] = &["f1", "f2", "f3", "g", "hl", "f1", "f3", "big"];
 const NEW: &[&str] = &["x", "y", "z", "w"];
 const MODES: &[u32] = &[0o644, 0o600, 0o755, 0o700, 0o777, 0o444, 0o000, 0o666, 0o640];
 
@@ -216,7 +216,7 @@ impl Gen {
             }
             "rename" => {
                 let (name, nk) = self.name(85, hostile_p / 2);
-                let (name2, nk2) = self.name(40, hostile_p / 2);
+                let (name2, nk2) = self.name(40, hostile_p);
                 let fl = *self.rng.pick(&[0u32, 0, 0, 1, 2, 3]);
                 json!({"op": "rename", "p": self.pick_node(&["dir"]), "name": name, "nk": nk, "p2": self.pick_node(&["dir"]), "name2": name2, "nk2": nk2, "flags": fl})
             }
@@ -273,6 +273,10 @@ impl Gen {
                         let m = *self.rng.pick(&[0i32, 0, libc::FALLOC_FL_KEEP_SIZE, libc::FALLOC_FL_PUNCH_HOLE | libc::FALLOC_FL_KEEP_SIZE, libc::FALLOC_FL_PUNCH_HOLE,
                                                  libc::FALLOC_FL_ZERO_RANGE, libc::FALLOC_FL_ZERO_RANGE | libc::FALLOC_FL_KEEP_SIZE, libc::FALLOC_FL_COLLAPSE_RANGE,
                                                  libc::FALLOC_FL_INSERT_RANGE, libc::FALLOC_FL_PUNCH_HOLE | libc::FALLOC_FL_ZERO_RANGE, 0x80]);
+                        if n >= 0 && self.nodes[n as usize].size >= 4096 && self.rng.chance(2, 3) {
+                            // block-aligned ranges: where collapse / insert range are possible at all
+                            return json!({"op": "fallocate", "n": n, "h": h, "mode": m, "off": *self.rng.pick(&[0u64, 4096]), "len": 4096});
+                        }
                         json!({"op": "fallocate", "n": n, "h": h, "mode": m, "off": off, "len": *self.rng.pick(&[0u64, 1, 2, 3, 4, 8, 12])})
                     }
                     _ => json!({"op": "fsync", "n": n, "h": h, "datasync": self.rng.below(2)}),
